@@ -361,7 +361,7 @@ class C09(core.Property):
                    "pending_still_answered_once", "shutdown_step_balance", "exit_keeps_replies",
                    "C09_reply_null_holds", "C09_cancel_holds", "C09_pending_holds", "C09_gate_holds", "C09_exit_holds",
                    "C09_partial", "C09_refuted_thread_awaitable", "C09_refuted", "C09_pinned_stdio_loses_status",
-                   "C09_nonvacuous", "C09_awaitable_first_exit_wins", "C09_reference_agrees"]
+                   "C09_nonvacuous", "C09_outgoing_entry_remains", "C09_awaitable_first_exit_wins", "C09_reference_agrees"]
     coq_targets = ["Props/C09.vo", "Extract/ExtractC09.vo"]
     rule = ("sched: a pending set drawn from {async suspended / unstarted / finished-callback-queued, thread running / "
             "queued, outgoing request, async notification, command async / thread}, then shutdown and exit at chosen "
@@ -378,6 +378,9 @@ class C09(core.Property):
                     "SystemExit leaving asyncio.run / a loop callback, the interpreter turning the end of the start_* call "
                     "into a process status"]
     assumptions = ["request ids pairwise distinct among incoming requests (exactly-once clause)",
+                   "handler_codes_int32: JSON-RPC codes raised by request handlers are int32 (outside it the real endpoint "
+                   "sends no reply, C07 finding wide-own-code, and the model over-approximates); the generators draw "
+                   "int32 codes only, the boundaries 2^31-1 and -2^31 included",
                    "no request frame carries the method name `exit` (the model's request methods do not include it)",
                    "one writer.write call is atomic; a pool work item starts and finishes as two atomic events",
                    "writer.close() of the transport in use is synchronous for stdio and TCP (StdoutWriter, StreamWriter)"]
@@ -388,7 +391,7 @@ class C09(core.Property):
 
     # ---------------------------------------------------------------- scenarios (sched)
     def _outcome(self, rng):
-        return rng.choice([["ret", rng.choice([0, 1, 7, -3])], ["ret", 5], ["raise"], ["rpc", rng.choice([-32001, 5])]])
+        return rng.choice([["ret", rng.choice([0, 1, 7, -3])], ["ret", 5], ["raise"], ["rpc", rng.choice([-32001, 5, 2 ** 31 - 1, -2 ** 31])]])
 
     def _pending(self, rng, kind, ids, state):
         """Messages (and the internal events that bring the handler to the wanted state) for one member of
